@@ -580,6 +580,14 @@ class Monitor:
         if m is None:       # a user we do not observe
             return
         ok = r.cond == 'OK'
+        # a map does not refuse what it must accept (well-spelled commands only)
+        if ev['ok_spelling'] and not ok:
+            must = (kind == 'SETACTIVE' and (a[0] == b'' or a[0] in m)) \
+                or (kind == 'DELETE' and a[0] in m and a[0] != act) \
+                or (kind == 'RENAME' and a[0] in m and a[1] not in m and a[1] in NAMES)
+            if must:
+                self.bad('sieve_map', f'{kind} {a!r} refused ({r}) although the store is {sorted(m)} '
+                         f'active {act!r}', 'refused')
         if kind == 'PUT' and ok:
             m[a[0]] = a[1]
         elif kind == 'GET':
@@ -640,12 +648,14 @@ class Monitor:
 
 
 # --------------------------------------------------------------- generators
-NAMES = [b'a', b'b', b'c', 'é'.encode(), b'x"y', b'back\\slash', b'sp ace', b'A',
+NAMES = [b'a', b'ab', b'b', b'c', 'é'.encode(), b'x"y', b'back\\slash', b'sp ace', b'A',
          'ü'.encode() * 35, b'n' * 70, '\U0001f600'.encode(), b'{3+}', b'a\x00b', 'ａ'.encode(),
          b'"', b'\\', b'a' * 3000]
 BAD_NAMES = [b'', b'\xff', b'\xc3', b'\xed\xa0\x80', b'\xc0\xaf', b'\xf4\x90\x80\x80', b'a\nb',
              b'\xe2\x82']
-GOOD_SCRIPTS = [b'keep;', b'discard;', b'require "fileinto"; fileinto "X";',
+S24 = b'#' + b'x' * 16 + b'\r\nkeep;'          # exactly 24 bytes: the limit of the 'small' configuration
+S25 = b'#' + b'x' * 17 + b'\r\nkeep;'
+GOOD_SCRIPTS = [S24, S25, b'keep;', b'discard;', b'require "fileinto"; fileinto "X";',
                 b'if header :contains "subject" "x" { discard; }\r\n',
                 b'# comment\r\nkeep;\r\n', b'require ["fileinto", "reject"];\r\nreject "no";']
 BAD_SCRIPTS = [b'kee', b'', b'\xff\x00', b'if {', b'keep', b'x' * 30, b'keep;' * 900,
@@ -787,18 +797,34 @@ for _w in FIVE + SCRIPT_CMDS + (b'UNAUTHENTICATE',):
         pool_add(_f, force=True)
 
 
-def gen_program(rng, nconns: int, length: int):
+def gen_program(rng, nconns: int, length: int, cfg_name: str = 'default'):
     names = rng.sample(NAMES, 4)
+    if rng.random() < 0.5:
+        names[:2] = [b'a', b'ab']           # one name a prefix of another
     datas = rng.sample(GOOD_SCRIPTS, 2) + rng.sample(BAD_SCRIPTS, 2)
+    if cfg_name == 'small':
+        datas[:2] = [S24, S25]              # at and just above max_filter_len
     evs = []
-    # most programs log somebody in early, otherwise little happens
+    # most programs log somebody in early and store something, otherwise little happens
+    logged = []
     for k in range(nconns):
         if rng.random() < 0.6:
             evs.append(gen_auth(rng, k, how=rng.choice(['plain', 'plain-cont', 'login'])))
+            logged.append(k)
+    if logged and rng.random() < 0.7:
+        k = rng.choice(logged)
+        d = datas[0]
+        evs.append(_fixed(k, 'PUT', (names[0], d), b'PUTSCRIPT ' + q(names[0]) + b' ' + lit(d) + b'\r\n'))
+        evs.append(_fixed(k, 'PUT', (names[1], d), b'PUTSCRIPT ' + lit(names[1]) + b' ' + lit(d) + b'\r\n'))
+        evs.append(_fixed(k, 'SETACTIVE', (names[0],), b'SETACTIVE ' + q(names[0]) + b'\r\n'))
     while len(evs) < length:
         evs.append(gen_event(rng, nconns, names, datas))
-    rng.shuffle(evs) if rng.random() < 0.15 else None
     return evs
+
+
+def _fixed(k, kind, args, buf):
+    return dict(kind=kind, conn=k, args=args, buf=buf, conts=[], ok_spelling=True,
+                word=first_word(buf))
 
 
 # ------------------------------------------------------- running a program
@@ -898,7 +924,7 @@ def section_parse(ctx) -> None:
              b'AUTHENTICATE "PLAIN" "eA=="\r\n', b'CHECKSCRIPT {5+}\r\nkeep;\r\n',
              b'DELETESCRIPT "\xc3\xa9"\r\n', b'LISTSCRIPTS\r\n', b'logout\r\n']
     stream = []          # (buffer, Gallina term for it or None)
-    nb = ctx.scale(3, len(bases))
+    nb = ctx.scale(2, len(bases))
     for bi, base in enumerate(bases[:nb]):           # every byte value at every position
         pool_add(base, force=True)
         bn = POOL[base]
@@ -912,11 +938,12 @@ def section_parse(ctx) -> None:
     # every UTF-8-ish 1..3 byte name over a boundary alphabet
     alpha = [0x61, 0x7f, 0x80, 0xbf, 0xc0, 0xc2, 0xdf, 0xe0, 0xa0, 0x9f, 0xed, 0xef, 0xf0, 0x90,
              0x8f, 0xf4, 0xf5, 0xff]
-    for n in (1, 2, 3):
-        for t in itertools.product(alpha, repeat=n):
-            stream.append((b'GETSCRIPT ' + lit(bytes(t)) + b'\r\n',
-                           f'(getscript_lit {T.bytes_(bytes(t))})'))
-    for t in itertools.product([0xf0, 0xf4, 0x90, 0x8f, 0x80, 0xbf, 0x61], repeat=4):
+    utf = [t for n in (1, 2, 3) for t in itertools.product(alpha, repeat=n)]
+    utf4 = list(itertools.product([0xf0, 0xf4, 0x90, 0x8f, 0x80, 0xbf, 0x61], repeat=4))
+    if ctx.quick:       # all 1- and 2-byte names, a sample of the longer ones
+        utf = utf[:18 + 324] + rng.sample(utf[18 + 324:], 1500)
+        utf4 = rng.sample(utf4, 500)
+    for t in utf + utf4:
         stream.append((b'GETSCRIPT ' + lit(bytes(t)) + b'\r\n',
                        f'(getscript_lit {T.bytes_(bytes(t))})'))
     for n in (1, 4299, 4300, 4301):
@@ -1042,22 +1069,17 @@ ALPHABET = [
     ('AUTH', lambda k: gen_auth(None, k, 'u1', 'plain')),
     ('AUTH2', lambda k: gen_auth(None, k, 'u2', 'plain')),
     ('PUTa', lambda k: _fixed(k, 'PUT', (b'a', b'keep;'), b'PUTSCRIPT "a" "keep;"\r\n')),
-    ('PUTb', lambda k: _fixed(k, 'PUT', (b'b', b'discard;'), b'PUTSCRIPT "b" {8+}\r\ndiscard;\r\n')),
+    ('PUTab', lambda k: _fixed(k, 'PUT', (b'ab', b'discard;'), b'PUTSCRIPT "ab" {8+}\r\ndiscard;\r\n')),
     ('GETa', lambda k: _fixed(k, 'GET', (b'a',), b'GETSCRIPT "a"\r\n')),
     ('LIST', lambda k: _fixed(k, 'LIST', (), b'LISTSCRIPTS\r\n')),
     ('ACTa', lambda k: _fixed(k, 'SETACTIVE', (b'a',), b'SETACTIVE "a"\r\n')),
     ('ACT0', lambda k: _fixed(k, 'SETACTIVE', (b'',), b'SETACTIVE ""\r\n')),
     ('DELa', lambda k: _fixed(k, 'DELETE', (b'a',), b'DELETESCRIPT "a"\r\n')),
-    ('RENab', lambda k: _fixed(k, 'RENAME', (b'a', b'b'), b'RENAMESCRIPT "a" "b"\r\n')),
-    ('RENba', lambda k: _fixed(k, 'RENAME', (b'b', b'a'), b'RENAMESCRIPT {1+}\r\nb "a"\r\n')),
+    ('RENa', lambda k: _fixed(k, 'RENAME', (b'a', b'ab'), b'RENAMESCRIPT "a" "ab"\r\n')),
+    ('RENab', lambda k: _fixed(k, 'RENAME', (b'ab', b'a'), b'RENAMESCRIPT {2+}\r\nab "a"\r\n')),
     ('UNAUTH', lambda k: _fixed(k, 'UNAUTH', (), b'UNAUTHENTICATE\r\n')),
     ('CHECK', lambda k: _fixed(k, 'CHECK', (b'kee',), b'CHECKSCRIPT "kee"\r\n')),
 ]
-
-
-def _fixed(k, kind, args, buf):
-    return dict(kind=kind, conn=k, args=args, buf=buf, conts=[], ok_spelling=True,
-                word=first_word(buf))
 
 
 def section_programs(ctx) -> None:
@@ -1066,24 +1088,31 @@ def section_programs(ctx) -> None:
     # (1) all sequences over the small alphabet on two connections: connection 0
     #     starts unauthenticated, connection 1 is first logged in as u1
     letters = [(k, nm, mk) for k in (0, 1) for nm, mk in ALPHABET]
+    amk = dict(ALPHABET)
     for _nm, mk in ALPHABET:
         pool_add(mk(0)['buf'], force=True)
+    login = [gen_auth(None, 1, 'u1', 'plain')]
+    # two starting points: u1's store empty / holding the active script "a"
+    starts = [login, login + [amk['PUTa'](1), amk['ACTa'](1)]]
     maxlen = 3 if not ctx.quick else 2
-    pre = [gen_auth(None, 1, 'u1', 'plain')]
-    for n in range(1, maxlen + 1):
-        for t in itertools.product(letters, repeat=n):
-            progs.append(('default', 2, pre + [mk(k) for k, _nm, mk in t], ('u1', 'u2')))
+    for pre in starts:
+        for n in range(1, maxlen + 1):
+            for t in itertools.product(letters, repeat=n):
+                progs.append(('default', 2, pre + [mk(k) for k, _nm, mk in t], ('u1', 'u2')))
     n_exh = len(progs)
     if ctx.quick:      # a sample of the length-3 sequences
-        for _ in range(400):
+        for _ in range(300):
             t = [rng.choice(letters) for _ in range(3)]
-            progs.append(('default', 2, pre + [mk(k) for k, _nm, mk in t], ('u1', 'u2')))
-    ctx.extra['exhaustive_sequences'] = {'alphabet': len(letters), 'max_len': maxlen, 'count': n_exh}
+            progs.append(('default', 2, rng.choice(starts) + [mk(k) for k, _nm, mk in t],
+                          ('u1', 'u2')))
+    ctx.extra['exhaustive_sequences'] = {'alphabet': len(letters), 'max_len': maxlen,
+                                         'starting_stores': 2, 'count': n_exh}
     # (2) random programs
     for _ in range(ctx.scale(400, 6000)):
         cfg_name = rng.choice(['default', 'default', 'small', 'nolimit', 'tls'])
         nconns = rng.choice([2, 3, 3, 4])
-        progs.append((cfg_name, nconns, gen_program(rng, nconns, rng.randint(6, 22)), tuple(USERS)))
+        progs.append((cfg_name, nconns, gen_program(rng, nconns, rng.randint(6, 22), cfg_name),
+                      tuple(USERS)))
 
     async def run_all():
         out = []
@@ -1114,7 +1143,7 @@ def section_programs(ctx) -> None:
     ctx.sample({'program': [(c, b.decode('latin-1'), repr(r)) for c, b, _u, r in
                             results[-1].get('transcript', [])[:8]]})
     bad = ctx.run_cases('sieve_prog', HEADER + pool_header(), 'prog_case', cases, 'chk_prog',
-                        shard=200)
+                        shard=400 if ctx.quick else 250)
     for j in bad[:5]:
         cfg_name, nconns, evs, _warm = progs[idx[j]]
         d = describe(cfg_name, nconns, evs)
@@ -1154,9 +1183,12 @@ def run(ctx) -> None:
     # subprocesses, so they run side by side
     import traceback
     from concurrent.futures import ThreadPoolExecutor
+    import os
+    only = [x for x in os.environ.get('VERIF_C19_SECTIONS', '').split(',') if x]   # debugging aid
+    sections = [f for f in (section_programs, section_parse, section_filterset)
+                if not only or f.__name__[len('section_'):] in only]
     with ThreadPoolExecutor(max_workers=3) as ex:
-        futs = [(f.__name__, ex.submit(f, ctx))
-                for f in (section_programs, section_parse, section_filterset)]
+        futs = [(f.__name__, ex.submit(f, ctx)) for f in sections]
         for name, fut in futs:
             try:
                 fut.result()
